@@ -2914,7 +2914,7 @@ FROM (
 
         rule_name = rule.name or ""
         ec_sql = self._error_code_sql(rule.erCode)
-        el_sql = self._error_code_sql(rule.erLevel)
+        el_sql = self._error_level_sql(rule.erLevel)
         select_parts = [quote_name(c) for c in id_cols + measure_cols]
         viral_parts = [quote_name(comp.name) for comp in viral_comps or []]
         if output_mode == "invalid":
@@ -3240,10 +3240,13 @@ FROM (
         inner_sql = f"SELECT {', '.join(inner_cols)} FROM _pivot{inner_where_clause}"
 
         ec_sql = self._error_code_sql(rule.erCode)
-        el_sql = self._error_code_sql(rule.erLevel)
-        el_null = (
-            "CAST(NULL AS DOUBLE)" if self._is_numeric(rule.erLevel) else "CAST(NULL AS VARCHAR)"
-        )
+        el_sql = self._error_level_sql(rule.erLevel)
+        if rule.erLevel is None:
+            el_null = "NULL"
+        elif self._is_numeric(rule.erLevel):
+            el_null = "CAST(NULL AS DOUBLE)"
+        else:
+            el_null = "CAST(NULL AS VARCHAR)"
 
         q_rc = quote_name(rule_comp)
         q_m = quote_name(measure)
@@ -3592,6 +3595,14 @@ FROM (
         """Convert an errorcode value to a SQL literal."""
         return "CAST(NULL AS VARCHAR)" if value is None else self._to_sql_literal(value=value)
 
+    def _error_level_sql(self, value: Any) -> str:
+        """Convert an errorlevel value to a SQL literal.
+
+        A missing level is an untyped NULL so that it takes the type of the levels
+        of the other rules (a VARCHAR NULL would turn numeric levels into text).
+        """
+        return "NULL" if value is None else self._to_sql_literal(value=value)
+
     def visit_Validation(self, node: AST.Validation) -> str:
         """Visit CHECK validation operator."""
         # Stash ``current_assignment`` so _build_ds_ds_binary doesn't rename the
@@ -3600,7 +3611,7 @@ FROM (
             validation_sql = self.visit(node.validation)
 
         error_code = self._error_code_sql(node.error_code)
-        error_level = self._error_code_sql(node.error_level)
+        error_level = self._error_level_sql(node.error_level)
 
         ds = self._get_dataset_structure(node.validation)
         if ds is None:
